@@ -45,3 +45,26 @@ Theorem C10_ruler_chains :
     chains_sub (mkBCfg (compile_chain rs []) (compile_chain rs) code mn html defs).
 Proof. exact ruler_cfg_chains_sub. Qed.
 Print Assumptions C10_ruler_chains.
+
+(* every inline token kind has a producer: for EVERY source, env and inline configuration, each
+   token ParserInline.parse leaves in the list is text, or of a kind one of whose producing rules
+   is in the chain - text_special: escape or entity; softbreak: newline; hardbreak: newline or
+   escape; code_inline: backticks; link_open / link_close: link or autolink; image: image;
+   html_inline: the html option; s_open / s_close: the strikethrough post-rule; em / strong: the
+   emphasis post-rule *)
+From MD Require Import Model.Render.
+From MD Require Lemmas.InlineProducers.
+Theorem C10_inline_kinds_need_producer :
+  forall cfg rf cf lt src env tokens r,
+    Forall (InlineProducers.Vp cfg) tokens -> inline_parse cfg rf cf lt src env tokens = Ok r ->
+    Forall (InlineProducers.Vp cfg) r.
+Proof. exact InlineProducers.inline_kinds_need_producer. Qed.
+Print Assumptions C10_inline_kinds_need_producer.
+
+(* read off for one kind: without the backticks rule there is no code_inline token *)
+Theorem C10_no_backticks_no_code_inline :
+  forall cfg rf cf lt src env r,
+    ~ In n_backticks (ic_rules cfg) -> inline_parse cfg rf cf lt src env [] = Ok r ->
+    Forall (fun t => ttype t <> s_code_inline) r.
+Proof. exact InlineProducers.no_backticks_no_code_inline. Qed.
+Print Assumptions C10_no_backticks_no_code_inline.
